@@ -1,7 +1,11 @@
 package props
 
 import (
+	"fmt"
 	"math/rand"
+	"os"
+	"path/filepath"
+	"strings"
 	"time"
 
 	"kv/core"
@@ -83,4 +87,84 @@ func C03(c *core.Ctx) {
 		return false
 	})
 	ledgerGen(c, "valued", c.Pick(1500, 60000))
+	c03stages(c, rng)
+}
+
+// c03stages validates the valuation stage on the real execution: the verif hook records each
+// day's transactions after every pipeline stage; TLC compares the valuation stage's and the
+// last pre-query stage's output with the model's stage operators (exact regime).
+func c03stages(c *core.Ctx, rng *rand.Rand) {
+	bin := c.Knut("verif")
+	dir := filepath.Join(c.Work, "c03stages")
+	os.MkdirAll(dir, 0o755)
+	n := c.Pick(150, 2500)
+	type job struct {
+		j *kj.Journal
+		f *kj.Flags
+	}
+	jobs := make([]job, n)
+	for i := range jobs {
+		j := kj.Random(rng, kj.GenOpts{Valued: true, MaxDirs: 10, DensePrices: i%2 == 0, AltQuotes: i%3 == 0}, 18262+rng.Intn(60))
+		jobs[i] = job{j, randomFlags(rng, j, flagOpts{Valued: true})}
+	}
+	scaledOf := func(s string, scale int) (int, bool) { return scaled(s, scale) }
+	run := func(i int) map[string]any {
+		d := filepath.Join(dir, fmt.Sprintf("s%d", i))
+		os.RemoveAll(d)
+		os.MkdirAll(d, 0o755)
+		defer os.RemoveAll(d)
+		cs := jobs[i].j.Case(4000000+i, "stagesExact", jobs[i].f)
+		text := jobs[i].j.Render()
+		os.WriteFile(filepath.Join(d, "j.knut"), []byte(text), 0o644)
+		trace := filepath.Join(d, "trace.ndjson")
+		args := append(append([]string{"balance", "--color=false"}, jobs[i].f.Args()...), "j.knut")
+		r := core.Run(core.RunOpts{Dir: d, Timeout: 60 * time.Second, Env: []string{"VERIF_TRACE=" + trace, fmt.Sprintf("VERIF_SCHED_SEED=%d", i)}}, bin, args...)
+		evs, _ := readHookTrace(trace)
+		events := []any{}
+		of := 0
+		bad := false
+		for _, e := range evs {
+			if e.Ev != "StageDay" {
+				continue
+			}
+			of = e.Of
+			z, _ := parseYMD(e.Day)
+			trx := []any{}
+			for _, t := range e.Trx {
+				ps := []any{}
+				for _, p := range t {
+					m := p.(map[string]any)
+					q, ok1 := scaledOf(fmt.Sprint(m["q"]), 1)
+					v, ok2 := scaledOf(fmt.Sprint(m["v"]), kj.PS)
+					if !ok1 || !ok2 {
+						bad = true
+					}
+					ps = append(ps, map[string]any{"a": m["a"], "c": m["c"], "q": q, "v": v})
+				}
+				trx = append(trx, ps)
+			}
+			events = append(events, map[string]any{"stage": e.Stage, "z": z, "trx": trx})
+		}
+		// balance -v: check, prices, valuate, filter, [close], query
+		cs["sValuate"], cs["sFinal"] = 3, of-1
+		if r.Exit != 0 || bad {
+			events = []any{} // a failing run (missing price) or numbers outside the regime: nothing to compare
+		}
+		cs["events"] = events
+		cs["argv"], cs["text"], cs["stderr"] = strings.Join(args, " "), text, r.Stderr
+		return cs
+	}
+	cases := make([]map[string]any, n)
+	core.Parallel(n, func(i int) { cases[i] = run(i) })
+	nev := 0
+	for _, cs := range cases {
+		nev += len(cs["events"].([]any))
+	}
+	c.Add("evaluations", n)
+	c.Add("stage_day_events_validated", nev)
+	c.JudgeAndReport("Trace_Ledger", "Trace_Ledger.cfg", cases, 16,
+		func(old map[string]any) map[string]any { return run(old["id"].(int) - 4000000) },
+		func(cs map[string]any) (string, string) {
+			return "C03:stages-" + fmt.Sprint(cs["why"]), fmt.Sprintf("knut %v (verif hook trace): %v\n--- journal\n%v\n%v", cs["argv"], cs["why"], cs["text"], cs["stderr"])
+		})
 }
